@@ -327,7 +327,7 @@ def to_events(p, obs, attach=False):
     prev_nums = {}
     base = {"ok": True, "err": "", "addrs": [], "idx": 0, "said": "none", "rpc": -1, "rline": -1, "code": -1,
             "patched": [-1], "bt": [-1], "tick": -1, "panic": False, "nums_kept": True, "gone": True,
-            "alive": True, "running": True, "dr_armed": False, "cfa_off": -1, "fi_ret": -1}
+            "alive": True, "running": True, "dr_armed": False, "cfa_off": -1, "fi_ret": -1, "stale": 0}
     for o in obs:
         if o.get("ev") == "released":
             dr = o.get("dr7") or {}
@@ -359,9 +359,10 @@ def to_events(p, obs, attach=False):
         e.update({"cmd": name, "ok": ok, "err": str(err)[:200], "patched": sorted(patched) if patched is not None else [-1],
                   "tick": after.get("tick") if after.get("tick") is not None else -1, "panic": res.get("panic") is not None})
         nums = {v["num"]: v["link"] for v in (after.get("snapshot") or []) if v.get("line") is not None or v["kind"] == "reloc" or True}
+        e["stale"] = len(after.get("stale") or [])
         if name == "drop":
             tasks = after.get("tasks") or {}
-            e["gone"] = after.get("proc_state") is None and not tasks
+            e["gone"] = after.get("proc_state") is None and not tasks and not after.get("stale")
             e["err"] = json.dumps({"state": after.get("proc_state"), "tasks": tasks, "panic": res.get("panic")})[:300]
             e["k"] = o["k"]
             evs.append(e)
